@@ -209,6 +209,10 @@ func (pp c08) Run(c *core.Ctx, idx int) {
 			{Kind: dp.List, Name: "lj", Keys: []string{"k"}, Children: []*dp.SNode{lf("k", "int64"), lf("v", "string")}},
 			{Kind: dp.List, Name: "lk", Keys: []string{"k"}, Children: []*dp.SNode{lf("k", "int64"), lf("v", "string")}},
 		}}
+		if gm.Shape == "struct" {
+			// composite keys whose parts hold the separator of the path syntax
+			s.Top = append(s.Top, &dp.SNode{Kind: dp.List, Name: "lc", Keys: []string{"a", "b"}, Children: []*dp.SNode{lf("a", "string"), lf("b", "string"), lf("v", "string")}})
+		}
 	}
 	if fixture {
 		// every reserved character as (part of) a key, single and composite, on every run
@@ -259,6 +263,9 @@ func (pp c08) Run(c *core.Ctx, idx int) {
 			{"-9223372036854775808", "-1", "0", "7", "9223372036854775807"},
 			{"-9223372036854775808", "-4611686018427387905", "-3", "2", "4611686018427387904", "9223372036854775806", "100", "-100"},
 		} {
+			if li >= len(s.Top) {
+				break
+			}
 			l := &dp.DList{S: s.Top[li]}
 			t.Lists[s.Top[li].Name] = l
 			if li != 3 {
@@ -280,6 +287,17 @@ func (pp c08) Run(c *core.Ctx, idx int) {
 	}
 	if s.SubName != "" {
 		c.Count("schemas_with_submodule")
+	}
+	if goFixture && len(s.Top) > 5 {
+		l := &dp.DList{S: s.Top[5]}
+		t.Lists["lc"] = l
+		for i, k := range [][2]string{{"a,b", "c"}, {"a", "b,c"}, {"a", "b"}, {",", ","}, {"x,", "y"}, {"x", ",y"}} {
+			e := dp.NewDNode(s.Top[5])
+			e.Leaves["a"] = &dp.LVal{V: []string{k[0]}}
+			e.Leaves["b"] = &dp.LVal{V: []string{k[1]}}
+			e.Leaves["v"] = &dp.LVal{V: []string{fmt.Sprintf("c%d", i)}}
+			l.Entries = append(l.Entries, e)
+		}
 	}
 	pristine := t.Clone()
 	store := dp.NewStore(s, t)
